@@ -145,6 +145,49 @@ fn pruning_cases<T: KS>(out: &mut Out, rng: &mut Rng, full: &[(T, (Exts, Pay))],
     }
 }
 
+/// the documented use of the sharded pruning, end to end: filter_kmers with report_all under a MULTI-PASS memory budget
+/// (hook H1) hands over the valid table and its all_kmers list; the valid table is sorted by key as the API asks, the
+/// all_kmers list is used AS RETURNED.  The result must be what the specification gives for the SET of observed k-mers.
+fn pruning_pipeline_case<T: KS>(out: &mut Out, rng: &mut Rng, reads: &[Vec<u8>], stranded: bool) {
+    let seqs = to_seqs(reads);
+    let k = T::k();
+    let input_kmers: usize = reads.iter().map(|r| r.len().saturating_sub(k - 1)).sum();
+    let kmer_mem = input_kmers * std::mem::size_of::<(T, u8)>();
+    if kmer_mem == 0 {
+        return;
+    }
+    let slices = *rng.pick(&[1usize, 2, 3, 7, 40, 256]);
+    let budget = std::cmp::max(1, kmer_mem / slices);
+    debruijn::filter::verif_hooks::set_mem_unit(1);
+    let r = guard(std::panic::AssertUnwindSafe(|| {
+        filter_kmers::<T, _, _, _, _>(&seqs, &Box::new(CountFilter::new(2)), stranded, true, budget)
+    }));
+    debruijn::filter::verif_hooks::set_mem_unit(0);
+    let (hash, all) = match r {
+        Some(x) => x,
+        None => return,
+    };
+    let mut valid: Vec<(T, (Exts, Pay))> = hash.iter().map(|(q, e, _)| (*q, (*e, (0u8, vec![0u32])))).collect();
+    valid.sort_by_key(|x| x.0);
+    if valid.is_empty() {
+        return;
+    }
+    let st = b(stranded);
+    let before = table_v(&valid);
+    let mut sorted_all = all.clone();
+    sorted_all.sort();
+    let allv = l(sorted_all.iter().map(|x| dna(&bases_of(x))).collect());
+    let mut v2 = valid.clone();
+    let r2 = guard(std::panic::AssertUnwindSafe(move || {
+        remove_censored_exts_sharded(stranded, &mut v2, &all);
+        v2
+    }));
+    match r2.map(|v| l(v.iter().map(|x| n((x.1).0.val)).collect())) {
+        Some(a) => out.case("chk.c03.pruned_sharded", l(vec![st, before, allv, a]), b(true)),
+        None => out.case("chk.c03.pruned_sharded", l(vec![]), V::Bot),
+    }
+}
+
 fn find_link_cases<T: KS>(out: &mut Out, rng: &mut Rng, g: &DebruijnGraph<T, D3>, stranded: bool, exhaustive: bool) {
     let k = T::k();
     let seqs: Vec<Vec<u8>> = (0..g.len()).map(|i| node_bytes(g, i)).collect();
@@ -231,6 +274,7 @@ pub fn cases<T: KS + Send + Sync>(out: &mut Out, rng0: &mut Rng, tier: &Tier) {
         if !full.is_empty() {
             out.nt = is_delicate(&reads, k);
             pruning_cases::<T>(out, &mut rng, &full, stranded);
+            pruning_pipeline_case::<T>(out, &mut rng, &reads, stranded);
         }
         // ---- the finished graph
         let tbl = table3::<T>(&reads, stranded, min_obs, prune, &colours);
